@@ -390,5 +390,33 @@ def register(g):
               f'def runSkelRecognised : Bool := {b(recognised)}\n'
               f'def runSkel : Run.RunSkel := ⟨{src_code or 0}, {dest_code or 0}, {b(dest_shuts_src)}, {o(err_ret)}, {b(err_shuts)}, {b(final_shuts)}, {b(final_success)}⟩\nend Rj.Generated\n')
 
+    def decisions():
+        """the two pure decision functions of boss_sync.rs, TRANSLATED (extract/translate.py) into Lean definitions"""
+        import translate
+        src = strip_comments(read('src/boss_sync.rs'))
+        ok = True
+        try:
+            nd = fn_body(src, 'needs_delete'); nc = fn_body(src, 'needs_copy')
+            # signatures: (src, dest, dest_platform_differentiates_symlinks) -> bool ; (ctx, path, src_details, dest_details) -> Option<CopyReason>
+            import re as _re
+            if not _re.search(r'fn\s+needs_delete\s*\(\s*src\s*:\s*&EntryDetails\s*,\s*dest\s*:\s*&EntryDetails\s*,\s*dest_platform_differentiates_symlinks\s*:\s*bool\s*\)\s*->\s*bool', src):
+                raise translate.Unsupported('signature of needs_delete')
+            if not _re.search(r'fn\s+needs_copy\s*\(\s*ctx\s*:\s*&SyncContext\s*,\s*path\s*:\s*&RootRelativePath\s*,\s*src_details\s*:\s*&EntryDetails\s*,\s*dest_details\s*:\s*&EntryDetails\s*\)\s*->\s*Option<CopyReason>', src):
+                raise translate.Unsupported('signature of needs_copy')
+            wrap = lambda b: b if b.strip().startswith('{') else '{' + b + '}'
+            e_d = translate.translate(wrap(nd), {'src': 's', 'dest': 'd', 'dest_platform_differentiates_symlinks': 'c.destDiff'}, 'bool')
+            e_c = translate.translate(wrap(nc), {'src_details': 's', 'dest_details': 'd', 'ctx.files_same_time_behaviour': 'c.sameTimeBehaviour'}, 'option')
+        except Exception as e:
+            ok = False
+            status['decisions'] = f'needs_delete / needs_copy are outside the translated subset: {e!r}'
+            e_d, e_c = 'true', 'none'
+        write('Decisions.lean', 'import RjModel.Model.Planner\nnamespace Rj.Generated\n'
+              '/-- both functions were inside the subset the translator (extract/translate.py) handles -/\n'
+              f'def decisionsTranslated : Bool := {"true" if ok else "false"}\n'
+              '/-- `needs_delete` of boss_sync.rs, translated -/\n'
+              f'def needsDeleteSrc (c : PCfg) (s d : Details) : Bool :=\n  {e_d}\n'
+              '/-- `needs_copy` of boss_sync.rs, translated (outer `none`: the `panic!("Wrong entry type")` arm) -/\n'
+              f'def needsCopySrc (c : PCfg) (s d : Details) : Option (Option CopyReason) :=\n  {e_c}\nend Rj.Generated\n')
+
     g_ = g
-    return {'run_skel': run_skel, 'link_socket': link_socket, 'session': session, 'defaults': defaults, 'skeletons': skeletons, 'sites': sites, 'shutdown': shutdown, 'panic_sites': panic_sites, 'walker': walker, 'slash_table': slash_table}
+    return {'decisions': decisions, 'run_skel': run_skel, 'link_socket': link_socket, 'session': session, 'defaults': defaults, 'skeletons': skeletons, 'sites': sites, 'shutdown': shutdown, 'panic_sites': panic_sites, 'walker': walker, 'slash_table': slash_table}
